@@ -34,7 +34,9 @@ def run(ctx):
     ctx.cov['exhaustive'] = False
 
 
-THEOREMS = ['C20_sets_refine_gset', 'C20_sets_operands_unchanged']
+THEOREMS = ['C20_sets_refine_gset', 'C20_sets_operands_unchanged', 'C20_pq_invariant_every_history',
+            'C20_pq_invariant_every_prefix', 'C20_pq_pop_minimal', 'C20_pq_push', 'C20_pq_remove', 'C20_pq_fix',
+            'C20_pq_total']
 
 
 def heap_oracle(ctx, cases_path, impl_path):
